@@ -120,7 +120,7 @@ def mr_eval(case, mode):
 
 def unit_multi_run_fake(ctx):
     rng = ctx.rng
-    big = ctx.thorough or ctx.escalated()
+    big = ctx.thorough or bool(ctx.drift)
     cases = []
     nmax = 5 if big else 4
     cap = 6000 if big else 700
@@ -193,7 +193,7 @@ def unit_multi_run_fake(ctx):
 
 def unit_multi_run_threads(ctx):
     rng = ctx.rng
-    big = ctx.thorough or ctx.escalated()
+    big = ctx.thorough or bool(ctx.drift)
     cases = []
     for n in range(2, 5 if big else 4):
         for w in (1, 2, 3):
@@ -298,6 +298,9 @@ def coq_mr_out(s):
 # ------------------------------------------------------------------------------------------------
 
 def run(ctx):
+    if os.environ.get("C15_WATCHDOG"):
+        import faulthandler
+        faulthandler.dump_traceback_later(int(os.environ["C15_WATCHDOG"]), exit=True, file=sys.stderr)
     ctx.coverage["rule"] = (
         "multi_run: every schedule (batches of window picks) for <=4 runs (thorough 5) x 1..3 workers, every "
         "completion order for 5 runs, random schedules up to 8 runs x 8 workers; run-id styles padded/unpadded/"
